@@ -84,12 +84,20 @@ int32_t psRsaParseAsnPubKey(psPool_t *pool,
     }
 
     end = p + seqlen;
-    if ((rc = pstm_read_asn(pool, &p, (uint16_t) (end - p), &key->N)) < 0 ||
-        (rc = pstm_read_asn(pool, &p, (uint16_t) (end - p), &key->e)) < 0)
+    if ((rc = pstm_read_asn(pool, &p, (uint16_t) (end - p), &key->N)) < 0)
     {
         if (rc == PS_MEM_FAIL)
         {
             /* Callers that tolerate unparseable keys must still see this. */
+            return PS_MEM_FAIL;
+        }
+        goto L_FAIL;
+    }
+    if ((rc = pstm_read_asn(pool, &p, (uint16_t) (end - p), &key->e)) < 0)
+    {
+        pstm_clear(&key->N);
+        if (rc == PS_MEM_FAIL)
+        {
             return PS_MEM_FAIL;
         }
         goto L_FAIL;
